@@ -70,6 +70,6 @@ const (
 var Names = S{Init, Watching, ChangeEvent, Refreshing, Refreshed, AllRefreshed, Exception}
 
 // NamesDir is an ordered list of all the state names for directories.
-var NamesDir = S{Refreshing, Refreshed, DirDebounced, DirCached}
+var NamesDir = S{Refreshing, Refreshed, DirDebounced, DirCached, Exception}
 
 // #endregion
